@@ -50,3 +50,14 @@ def part(level, specs):
 
         return KeyOverrideResult(p, "pk/shared")
     return p
+
+
+@m.memento_function(cluster="vfc", version="1")
+def extend(specs):
+    """Takes the (on-disk staged) partition of level 0 as returned by the memoized call - possibly the object the memory
+    cache holds, already serialized once -, replaces one entry, adds one, and returns it."""
+    sys.audit("vf.body", "extend", 0)
+    p = part(0, specs)
+    p["b"] = "replaced-b"
+    p["z"] = ["added", 1]
+    return p
